@@ -364,4 +364,44 @@ def run(prog: Program, res: Result) -> None:  # noqa: PLR0912, PLR0915
             for n in ast.walk(m_.node):
                 if isinstance(n, ast.Assign) and any(is_self_attr(t) for t in n.targets) and isinstance(n.value, ast.Lambda):
                     res.fail("C12.R6", file=c.file, line=n.lineno, qualname=m_.qualname, construct=n, message="a lambda is stored on an AST object: templates containing it cannot be pickled", what="no lambda stored on AST objects")
+    # custom state hooks must carry every slot
+    for c in list(ast_classes) + [prog.cls("liquid2.template.Template")]:
+        gs = c.methods.get("__getstate__") or c.methods.get("__reduce__") or c.methods.get("__reduce_ex__")
+        if gs is None:
+            continue
+        slots: set[str] = set()
+        for k in prog.mro(c):
+            sl = k.class_attrs.get("__slots__")
+            if sl is not None:
+                slots |= {x.value for x in ast.walk(sl) if isinstance(x, ast.Constant) and isinstance(x.value, str)}
+        mentioned = {x.value for x in ast.walk(gs.node) if isinstance(x, ast.Constant) and isinstance(x.value, str)} | {x.attr for x in ast.walk(gs.node) if isinstance(x, ast.Attribute)}
+        generic = any(isinstance(x, ast.Attribute) and x.attr == "__slots__" for x in ast.walk(gs.node))
+        n_pk += 1
+        missing = sorted(slots - mentioned - {"__weakref__", "__dict__"})
+        what = f"{c.name}.{gs.name} carries every slot"
+        if missing and not generic:
+            res.fail("C12.R6", file=c.file, line=gs.node.lineno, qualname=f"{c.name}.{gs.name}", construct=f"{c.name}.{gs.name} omits {missing}", message=f"{c.name}.{gs.name} hand-picks the pickled state and leaves out {missing}: an unpickled object silently loses that data", what=what)
+        else:
+            res.ok("C12.R6", f"{c.file}:{gs.node.lineno} {c.name}.{gs.name}", what, "all slots mentioned")
     res.floor("C12.R6", "pickle obligations", n_pk, 40)
+
+    # ------------------------------------------------------------------ R7 truthiness of AST objects
+    res.rule("C12.R7", "AST nodes keep default (always-true) truthiness: printers and renderers test optional children with `if self.x:`, so a Node/Expression class defining __bool__/__len__ makes an empty child disappear from str(template)")
+    n_truth = 0
+    for c in sorted(set(prog.subclasses(node_base)) | set(prog.subclasses(expr_base)), key=lambda x: x.full):
+        n_truth += 1
+        bad = [m for m in ("__bool__", "__len__") if m in c.methods]
+        site = f"{c.file}:{c.node.lineno} {c.name}"
+        what = f"{c.name} does not override truthiness"
+        if bad:
+            # is truthiness of instances of this class actually relied on?
+            users = []
+            for k in list(prog.subclasses(node_base)) + list(prog.subclasses(expr_base)):
+                for m_ in k.methods.values():
+                    for t in ast.walk(m_.node):
+                        if isinstance(t, (ast.If, ast.IfExp)) and isinstance(t.test, ast.Attribute) and is_self_attr(t.test):
+                            users.append(f"{k.name}.{m_.name}: if {norm(t.test)}")
+            res.fail("C12.R7", file=c.file, line=c.methods[bad[0]].node.lineno, qualname=f"{c.name}.{bad[0]}", construct=f"{c.name} defines {bad}", message=f"{c.name} defines {bad}: {len(users)} `if self.<child>:` presence tests (e.g. {users[:2]}) now treat an empty {c.name} as absent, so str(template) drops it (and its whitespace-control markers)", what=what)
+        else:
+            res.ok("C12.R7", site, what, "default object truthiness")
+    res.floor("C12.R7", "AST classes checked for truthiness overrides", n_truth, 50)
